@@ -141,6 +141,22 @@ def main():
         for perm in itertools.permutations(range(1, len(arr))):
             if all(abs(pos + 1 - idx) <= 3 for pos, idx in enumerate(perm)):
                 expect([arr[0]] + [arr[i] for i in perm], want, "displace<=3: permutation of %d segments (first stays first)" % len(arr))
+    # any arrival order at all that keeps the first segment first (the statement of C05_reordering), longer streams, with the other direction interleaved
+    for rep in range(40 if ck.tier == "quick" else 1500):
+        recs, other = tiny_records(rng, rng.randrange(2, 9)), tiny_records(rng, rng.randrange(1, 4))
+        stream = b"".join(recs)
+        n = rng.randrange(2, min(14, len(stream)))
+        arr = arrivals_of(chunk(stream, sorted(rng.sample(range(1, len(stream)), n - 1))), rng.choice([5, 1 << 31, (1 << 32) - rng.randrange(1, len(stream)), rng.randrange(1 << 32)]))
+        tail = arr[1:]
+        rng.shuffle(tail)
+        oth = arrivals_of(other, rng.randrange(1 << 32), False)
+        merged = [m["a"] for m in capgen.merge(rng, [[{"a": x} for x in [arr[0]] + tail], [{"a": x} for x in oth]])]
+        got = records_handed(impl, merged)
+        hist["any-order"] += 1
+        ck.case(("any-order", tuple(merged)))
+        if isinstance(got, str) or [x for x in got if x[0]] != [(True, r) for r in recs] or [x for x in got if not x[0]] != [(False, r) for r in other]:
+            fails.append({"what": "any-order: %d segments of a direction in a random order (first stays first) change the records delivered" % len(arr),
+                          "arrivals": [(s_, q, p_.hex()) for s_, q, p_ in merged], "want": [(True, r.hex()) for r in recs], "got": str(got)[:300]})
     # open finding: the very FIRST data segment of a direction is the displaced one and the segment that overtakes it frames as whole records
     expect([whole[1], whole[0], whole[2]], [(True, r1), (True, r2), (True, r3)],
            "first-displaced: the first data segment of a direction arrives after a later one that frames as whole records", tag="first-segment-displaced")
@@ -191,8 +207,8 @@ def main():
                      {"broken": ck.broken, "searched": "%d arrival schedules on the implementation: none changes the records delivered" % ck.cov["evaluations"]}, found_input=False)
     ck.finish("proof", assumptions=[
         "theorems cover (a) segmentation, (b) retransmitted exact duplicates, (d) any initial sequence number incl. streams across 2^32 (< 2^31 bytes per direction "
-        "in flight) and the interleaving of directions; (c) bounded reordering is covered by the exhaustive displacement sweep of this check (theorem: DESIGN.md); "
-        "residual open finding: the very first data segment of a direction displaced",
+        "in flight) and the interleaving of directions; (c) any arrival order that keeps a direction's first data segment first (C05_reordering; the check adds the exhaustive "
+        "displacement <= 3 sweep and random full permutations on a real Session); open finding: the very first data segment of a direction displaced",
         "records are well framed byte strings (wf_rec); dpkt parsing modelled"])
 
 
